@@ -121,6 +121,81 @@ func genProv(r *rand.Rand) string {
 	return fmt.Sprintf("kind=prov n=%d%s rq=%s sc=%s", n, pl, strings.Join(rq, "|"), strings.Join(scs, ";"))
 }
 
+// genProvCap (round 6): the two size limits of the decoder (repairs 1eaf10a, 4cfc662). A request list may expand to at most
+// config.MaxScenarioRequests = 2^20 steps (counted over the whole list, refused BEFORE anything is allocated), the
+// weights may spread into at most config.MaxSpreadSize = 2^24 ammo. `edge` = one of the rare accepted lists AT the
+// limit (2^20 steps: some hundred MB in the real decoder, hence only a few per run).
+func genProvCap(r *rand.Rand, edge bool) string {
+	const cap = 1 << 20
+	k := func(n int) string { return fmt.Sprint(n) }
+	var shoots []string
+	ws := []string{"-"}
+	n := 1
+	if edge {
+		switch r.Intn(4) {
+		case 0:
+			shoots = []string{"a(" + k(cap) + ")"}
+		case 1:
+			shoots = []string{"a(" + k(cap-1) + ",2)", "b", "sleep(7)"}
+		case 2:
+			d := 1 + r.Intn(9)
+			shoots = []string{"b(" + k(d) + ")", "a(" + k(cap-d) + ")", "a(0)", "sleep(3)"}
+		default:
+			shoots = []string{"a(" + k(cap/2) + ")", "b(" + k(cap/2) + ",1)"}
+		}
+	} else {
+		switch r.Intn(12) {
+		case 0:
+			shoots = []string{"a(" + k(cap+1) + ")"}
+		case 1:
+			shoots = []string{"a(" + k(cap+1+r.Intn(1000)) + ",5)", "b"}
+		case 2:
+			d := 1 + r.Intn(9)
+			shoots = []string{"b(" + k(d) + ")", "a(" + k(cap-d+1) + ")"}
+		case 3:
+			shoots = []string{"a(" + k(cap/2+1+r.Intn(5)) + ")", "b", "a(" + k(cap/2) + ")"}
+		case 4:
+			shoots = []string{"a(600000)", "sleep(5)", "a(600000)"}
+		case 5:
+			shoots = []string{"a", "b(2)", "a(" + pick(r, "2000000", "4294967297", "9223372036854775807", "1099511627776") + ")"}
+		case 6:
+			// far below the limit, but large: nothing is refused
+			shoots = []string{"a(" + k(2000+r.Intn(3000)) + ")", "b(" + k(1+r.Intn(3)) + ",4)", "a(" + k(1000+r.Intn(500)) + ",1)"}
+		case 7:
+			// a refused item AFTER a leading sleep / unknown name: the first error wins
+			shoots = []string{pick(r, "sleep(3)", "nosuch", "a(x)"), "a(" + k(cap+1) + ")"}
+		case 8:
+			// the limit is per scenario, not per description: two scenarios of 3/4 of the limit each would be fine but heavy;
+			// two of 300 000 steps are accepted
+			shoots = []string{"a(300000)"}
+			ws = []string{"1", "1"}
+		case 9:
+			// weights: 16777215 + 2 (coprime) spread into 2^24 + 1 ammo
+			shoots = []string{"a"}
+			ws = [][]string{{"16777215", "2"}, {"16777216", "1"}, {"33554432", "2"}, {"16777217", "16777217", "3"}, {"50331651", "3"}}[r.Intn(5)]
+		case 10:
+			// large weights with a large common divisor spread into few ammo
+			shoots = []string{"a", "b(2)"}
+			ws = [][]string{{"33554432", "33554432"}, {"16777216", "33554432", "50331648"}, {"1000000007", "1000000007"}, {"3000000", "2000000", "5000000"}}[r.Intn(4)]
+			n = 12
+		default:
+			// a moderately large ring (accepted): 99 991 + 7 (coprime)
+			shoots = []string{"a(2)"}
+			ws = []string{pick(r, "99991", "65537", "50021"), pick(r, "7", "2", "3")}
+			n = 3
+		}
+	}
+	var scs []string
+	for i, w := range ws {
+		sh := make([]string, len(shoots))
+		for j, x := range shoots {
+			sh[j] = escv(x)
+		}
+		scs = append(scs, fmt.Sprintf("s%d:%s:0:%s", i+1, w, strings.Join(sh, "|")))
+	}
+	return fmt.Sprintf("kind=prov n=%d rq=a|b sc=%s", n, strings.Join(scs, ";"))
+}
+
 // ---------------------------------------------------------------- kind=gun
 
 func genGun(r *rand.Rand, inst int) string {
@@ -621,6 +696,26 @@ func genGunPause(r *rand.Rand) string {
 	return fmt.Sprintf("kind=gun inst=1 shots=%d L=2 ub=1 rq=a:G::::;b:G::::;c:%s:::: sc=s1:1:0:%s or=", 4+r.Intn(2), pick(r, "G", "P"), sc)
 }
 
+// genGunCancel (round 6): a cancel of the gun's context at a particular point of a shot — `cx=<k>:<ms>`: <ms> ms after
+// the target has received request k of the instance (inside the pause that follows step k when that step has one, in
+// the middle of the next request otherwise; k = -1: before the first shot). The gun finishes the shot it has begun:
+// every step is executed and reported exactly once, pauses included (the model ignores the token).
+func genGunCancel(r *rand.Rand, inst int) string {
+	p1, p2 := 90+10*r.Intn(8), 80+10*r.Intn(6)
+	sc := pick(r,
+		fmt.Sprintf("a(2,%d)|b|c", p1),
+		fmt.Sprintf("a|sleep(%d)|b(1,%d)|c", p1, p2),
+		fmt.Sprintf("b|a(1,%d)|c|sleep(%d)", p1, p2),
+		fmt.Sprintf("a(1,%d)|b", p1))
+	k := r.Intn(4)
+	if r.Intn(8) == 0 {
+		k = -1
+	}
+	d := pick2(r, 0, 20, 30, 40)
+	return fmt.Sprintf("kind=gun inst=%d shots=%d L=2 cx=%d:%d rq=a:G::::jtok=tok;b:G::pa.tok::;c:%s:::: sc=s1:1:%s:%s or=",
+		inst, 2*inst, k, d, pick(r, "G", "P"), pick(r, "0", "0", "300"), sc)
+}
+
 // genGunTmplErr (round 4): focused cases for templates that cannot be used: request b carries a template that does not
 // parse (m1–m3) or fails after writing literal text (m4) in its URI, its body or an extra header; a precedes it, c follows
 // (and must not be executed); three or four shots, 1 or 4 instances — the failure must repeat on every shot, nothing of
@@ -747,8 +842,26 @@ func gen(r *rand.Rand, tier string) []string {
 		}
 		out = append(out, genGunTmplErr(r, inst))
 	}
+	for i := 0; i < 2*nPause; i++ {
+		inst := 1
+		if i%4 == 3 {
+			inst = 4
+		}
+		out = append(out, genGunCancel(r, inst))
+	}
 	for i := 0; i < nProv; i++ {
 		out = append(out, genProv(r))
+	}
+	// the decoder's size limits (round 6): refused lists / weights (cheap) and a few accepted lists AT the limit (heavy)
+	nCap, nEdge := 40, 2
+	if tier == "thorough" {
+		nCap, nEdge = 400, 6
+	}
+	for i := 0; i < nCap; i++ {
+		out = append(out, genProvCap(r, false))
+	}
+	for i := 0; i < nEdge; i++ {
+		out = append(out, genProvCap(r, true))
 	}
 	for i := 0; i < nGun1; i++ {
 		out = append(out, genGun(r, 1))
